@@ -82,6 +82,14 @@ def run_impl(case, collect_model_steps=True):
                 msteps.append(dict(st))
                 p = w.path(st["path"])
                 obs.append(alpha.raw_file(p, w.umap) if os.path.exists(p) else {"absent": True})
+            elif do == "hash":
+                msteps.append(dict(st))
+                p = w.path(st["path"])
+                if os.path.exists(p):
+                    import hashlib
+                    obs.append({"hash": hashlib.sha256(open(p, "rb").read()).hexdigest()})
+                else:
+                    obs.append({"absent": True})
             elif do == "info":
                 msteps.append(dict(st))
                 p = w.path(st["path"])
@@ -131,4 +139,57 @@ def run_model(drv, msteps, n_obs):
 
 
 def canon_list(obs):
-    return [alpha.canon_obs(o) for o in obs]
+    out = [alpha.canon_obs(o) for o in obs]
+    seen = {}
+    for o in out:
+        if isinstance(o, dict) and "hash" in o:
+            o["hash"] = seen.setdefault(o["hash"], f"H{len(seen)}")
+    return out
+
+
+# ----------------------------------------------------------------------------
+# helpers for oracles (independent Python statement of the specs, on alpha's JSON)
+# ----------------------------------------------------------------------------
+
+DATA_TYPES = ("node", "array", "pointlist", "pointlistarray", "custom")
+LAST = {"msteps": None}
+
+
+def is_data_group(o):
+    return "g" in o and o["g"].get("emd_group_type") in DATA_TYPES
+
+
+def obj_to_tree(name, o):
+    """raw group JSON -> tree JSON {n,c,t,b,k}: tagged data groups are children, everything else is body"""
+    return {"n": name, "c": o["g"].get("python_class"), "t": o["g"].get("emd_group_type"),
+            "b": [[k, v] for k, v in o["k"] if not is_data_group(v)],
+            "k": [obj_to_tree(k, v) for k, v in o["k"] if is_data_group(v)]}
+
+
+def tree_at(t, path):
+    for n in path:
+        nxt = [k for k in t["k"] if k["n"] == n]
+        if not nxt:
+            return None
+        t = nxt[0]
+    return t
+
+
+def alone(t):
+    return dict(t, k=[])
+
+
+def file_roots(walk):
+    """{root name: tree JSON} of an EMD file walk"""
+    return {k: obj_to_tree(k, o) for k, o in walk["h5"]["k"] if "g" in o and o["g"].get("emd_group_type") == "root"}
+
+
+def tree_paths_json(t, prefix=()):
+    out = [(prefix, t["c"], t["t"])]
+    for k in t["k"]:
+        out += tree_paths_json(k, prefix + (k["n"],))
+    return out
+
+
+def canon_tree(t):
+    return alpha.canon_obs(t)
